@@ -5,6 +5,8 @@ from .common import *
 from .bitiso import upvar_tree
 from ..engine import AnalysisError, show, strip, short, last_seg
 
+strip = simp   # fold projections of in-place tuples (an inlined helper returning (addr, shift)) before comparing trees
+
 PROP = "C21"
 LEVEL = "other"
 QUICK = ["K0"]
@@ -228,7 +230,7 @@ def run(ctx, F):
         base = {}
         for n in names:
             p_, t = upvar_tree(F, cl, n)
-            base[n] = show(t) if t is not None else None
+            base[n] = show(simp(t)) if t is not None else None
         src = [n for n, v in base.items() if v == M("arg4", "arg2")]
         dst = [n for n, v in base.items() if v == M("arg1", "arg2")]
         ctx.judge(len(src) == 1 and len(dst) == 1, "C21.range", "the copy visitor knows the source table's address of the same data start", expected="captures meta(other,start) and meta(self,start)", found=str(base)[:300],
